@@ -19,7 +19,7 @@ CHECKS = {
     'C04': dict(
         category='other', design_ref='DESIGN.md §5 C04',
         technique='grammar-automaton analysis (serialized ATN decoded from the compiled program, path enumeration per rule) + agreement of generated Rust constants with it + provenance rules over the visitor',
-        text='Decides: rule nesting and `?:` right associativity, flat `||`/`&&` lists, operator classes of relation/calc with right operand at level n+1 and multiplicative above additive in the ATN and identically in the generated Rust, operand order of every call node the visitor builds, operator text table, that each visitor method returns only the node built by its designated constructor (a visited child or the error placeholder otherwise), label binding in source order, source order of logical chains through the balanced tree, prefix parity and that no visit result is dropped, macros placing receiver/arguments unchanged. The round trip itself is value-level and not decided. The parser never matches on an already built Expr (two macro argument checks excepted); literal, select and identifier nodes take their parts from their own children in source order.',
+        text='Decides: rule nesting and `?:` right associativity, flat `||`/`&&` lists, operator classes of relation/calc with right operand at level n+1 and multiplicative above additive in the ATN and identically in the generated Rust, operand order of every call node the visitor builds, operator text table, that each visitor method returns only the node built by its designated constructor (a visited child or the error placeholder otherwise), label binding in source order, source order of logical chains through the balanced tree (no reordering call in the chain builder, no inspection of the built operands), prefix parity and that no visit result is dropped, macros placing receiver/arguments unchanged. The round trip itself is value-level and not decided. The parser never matches on an already built Expr (two macro argument checks excepted); literal, select and identifier nodes take their parts from their own children in source order.',
         note='ATN format v3 and antlr4rust adaptive prediction trusted; reference table from the property'),
     'C02': dict(
         category='other', design_ref='DESIGN.md §5 C02, §4 analysis B',
@@ -44,7 +44,7 @@ CHECKS = {
     'C15': dict(
         category='other', design_ref='DESIGN.md §5 C15',
         technique='use/def rule on the parser remainder, API deny/require rules (nom float recognisers, chrono panicking operators), type rule (no float-typed local, no narrowing cast in the term conversion), provenance equality of the power-of-ten scale and the parsed digits, printer-bytes vs parser-unit agreement, unit table by constant propagation',
-        text='Decides: the unparsed remainder leads to an error; the number parser is nom\'s digit recogniser, not one of its float parsers, and the term reaches its nanosecond count without any binary float or narrowing cast, the fraction scaled by 10^len of the very digits parsed; every unit the printer emits (µs) is accepted by the parser; the sign is applied to the checked TimeDelta sum (so the most negative duration parses back); duration arithmetic in the operator impls and the parser uses chrono checked_* with None -> error; the printer takes the magnitude by unsigned_abs with no sign-losing cast or overflowing multiplication; unit table and longest-match order; a float->int cast of a parsed term, if any, is range-guarded. Digit-exact Go rendering and the round trip are value-level and not decided.',
+        text='Decides: the unparsed remainder leads to an error; the number parser is nom\'s digit recogniser, not one of its float parsers, and the term reaches its nanosecond count without any binary float or narrowing cast, the fraction scaled by 10^len of the very digits parsed; every unit the printer emits (µs) is accepted by the parser; the sign is applied to the checked TimeDelta sum (so the most negative duration parses back); duration arithmetic in the operator impls and the parser uses chrono checked_* with None -> error and never an i64 unit count; the printer takes the magnitude by unsigned_abs with no sign-losing cast or overflowing multiplication; unit table and longest-match order; a float->int cast of a parsed term, if any, is range-guarded. Digit-exact Go rendering and the round trip are value-level and not decided.',
         note='nom/chrono documented behaviour trusted for the named APIs'),
     'C12': dict(
         category='other', design_ref='DESIGN.md §5 C12',
@@ -54,7 +54,7 @@ CHECKS = {
     'C20': dict(
         category='other', design_ref='DESIGN.md §5 C20',
         technique='provenance/signature-table rules over extractors, registry and call site + rustc compile(-fail) witnesses for arities and parameter types',
-        text='This applies one conversion to receiver or first argument and is the first parameter of every built-in using it (table from the resolved generic arguments of the 24 registrations), no extractor indexes the argument list blindly, add is an unconditional insert and lookups walk to the root, 20 adapters exist and rustc accepts arities 0-9 / rejects arity 10 and unsupported types, the call site passes receiver, unevaluated arguments, name and a zero cursor; FromValue accepts exactly its own variant; the evaluator compares the call name with operator names only, so every other name goes through the registry. Only extractors and resolvers read the raw FunctionContext fields.',
+        text='This applies one conversion to receiver or first argument and is the first parameter of every built-in using it (table from the resolved generic arguments of the 24 registrations), no extractor indexes the argument list blindly, add is an unconditional insert and lookups walk to the root, 20 adapters exist and rustc accepts arities 0-9 / rejects arity 10 and unsupported types, the call site passes receiver, unevaluated arguments, name and a zero cursor; FromValue accepts exactly its own variant; the evaluator compares the call name with operator names only, so every other name goes through the registry. Only extractors and resolvers read the raw FunctionContext fields, each only the fields of its role (value extractors never the receiver).',
         note='bodies of host functions are outside the claim'),
     'C10': dict(
         category='other', design_ref='DESIGN.md §5 C10',
